@@ -18,6 +18,9 @@ What is proved here (for every oracle, every fuel, every hint value):
   * `basis_of_descent_partial`  exact order 2^f, Q above (0,0), independence — from the two named 2-descent
                               hypotheses `Descent0`, `DescentAlpha` in an abstract torsion model (PARTIAL: the descent
                               facts themselves — "x(P) non-square ⇒ [N/2]P ∉ {O,(0,0)}" — are not formalised);
+  * `double_abscissa_is_square`, `descent_of_doubling`, `exact_order_of_nonsquare_abscissa`   (round 5) the "≠ O" half of both descent
+                              hypotheses is PROVED from the curve equation (abscissa of a double is a square, x − α too) + the group structure;
+                              only the identification of the point of order two (`Below0`, `BelowAlpha`) remains hypothetical;
   * `L{1,3,5}_tables`         the decoded tables of the concrete instances have 20 entries, NQR entries are
                               non-squares, Z entries are squares with z−1 a non-square (finite ⇒ `decide +kernel`;
                               the Montgomery-form statement is C18's `L*_nqr_table`).
@@ -290,6 +293,79 @@ theorem basis_of_descent_partial (c : ℤ) (n f : ℕ) (hf1 : 1 ≤ f) (hfn : f 
   refine ⟨hP, hQ, hTQ, hTP1, hTP2, ?_⟩
   obtain ⟨m, rfl⟩ : ∃ m, f = m + 1 := ⟨f - 1, by omega⟩
   exact SqiProofs.BasisAlg.indep_of_distinct_two_torsion m P Q _ T0 hP hQ rfl hTQ hTP1 hT0 hTP2
+
+/-! ### reduction of the descent hypotheses (round 5)
+
+`Descent0` / `DescentAlpha` each bundle two facts: "[N/2]g ≠ O" and "which point of order two lies below g". The first fact follows
+from the curve equation alone: the abscissa of a double is a square, and x − α of a double is a square
+(`double_abscissa_is_square` below: field identities over any field of characteristic ≠ 2), plus the group-structure fact that
+[N/2]g = O ⇒ g ∈ 2E(K) (true in (ℤ/N)²). What remains as hypotheses is only the identification of the point of order two
+(`Below0`, `BelowAlpha`), i.e. the non-degeneracy half of the Tate pairing with (0,0) — not provable from the curve equation alone. -/
+
+/-- from the curve equation, over ANY field of characteristic ≠ 2: for R = (u, v) on y² = x³ + A x² + x with v ≠ 0 and α a root of
+    x² + A x + 1, the abscissa of 2R is the square of (u² − 1)/(2v), x(2R) − α is the square of (u² − 2αu + 1)/(2v), and it is the value the
+    x-only doubling formula computes -/
+theorem double_abscissa_is_square {F : Type} [Field F] (A u v α : F) (h2 : (2 : F) ≠ 0) (hv : v ≠ 0)
+    (hc : v ^ 2 = u ^ 3 + A * u ^ 2 + u) (hα : α ^ 2 + A * α + 1 = 0) :
+    SqiProofs.BasisAlg.dblX A u v = ((u ^ 2 - 1) / (2 * v)) ^ 2 ∧
+    SqiProofs.BasisAlg.dblX A u v - α = ((u ^ 2 - 2 * α * u + 1) / (2 * v)) ^ 2 ∧
+    SqiProofs.BasisAlg.dblX A u v = (u ^ 2 - 1) ^ 2 / (4 * u * (u ^ 2 + A * u + 1)) :=
+  ⟨SqiProofs.BasisAlg.dblX_is_square A u v h2 hv hc, SqiProofs.BasisAlg.dblX_sub_alpha_is_square A u v α h2 hv hc hα,
+   SqiProofs.BasisAlg.dblX_eq_xonly A u v h2 hv hc⟩
+
+/-- the point of order two below a point with non-square abscissa is not (0,0) -/
+def Below0 (N : ℤ) (T0 : G) (xSq : G → Prop) : Prop := ∀ g, ¬ xSq g → (N / 2) • g ≠ T0
+/-- x square and x − α non-square ⇒ the point of order two below (if any) is (0,0) -/
+def BelowAlpha (N : ℤ) (T0 : G) (xSq xaSq : G → Prop) : Prop := ∀ g, xSq g → ¬ xaSq g → ((N / 2) • g = 0 ∨ (N / 2) • g = T0)
+
+/-- the two original hypotheses follow from: doubles have square x and square x − α (proved from the curve equation),
+    [N/2]g = O ⇒ g is a double (group structure (ℤ/N)²), and the two identification hypotheses -/
+theorem descent_of_doubling (N : ℤ) (T0 : G) (xSq xaSq : G → Prop)
+    (hdbl : ∀ r : G, xSq ((2 : ℤ) • r) ∧ xaSq ((2 : ℤ) • r))
+    (hstruct : ∀ g : G, (N / 2) • g = 0 → ∃ r, g = (2 : ℤ) • r)
+    (B0 : Below0 N T0 xSq) (Ba : BelowAlpha N T0 xSq xaSq) :
+    Descent0 N T0 (fun g => ¬ xSq g) ∧ DescentAlpha N T0 (fun g => xSq g ∧ ¬ xaSq g) := by
+  constructor
+  · intro g hg
+    refine ⟨?_, B0 g hg⟩
+    intro h0
+    obtain ⟨r, rfl⟩ := hstruct g h0
+    exact hg (hdbl r).1
+  · intro g ⟨hs, ha⟩
+    rcases Ba g hs ha with h0 | hT
+    · obtain ⟨r, rfl⟩ := hstruct g h0
+      exact absurd (hdbl r).2 ha
+    · exact hT
+
+/-- exact order 2^f of the cleared point WITHOUT any descent hypothesis: x(P₀) non-square, doubles have square abscissa (curve equation),
+    [N/2]g = O ⇒ g ∈ 2E(K) -/
+theorem exact_order_of_nonsquare_abscissa (c : ℤ) (n f : ℕ) (hf1 : 1 ≤ f) (hfn : f ≤ n)
+    (hkill : ∀ g : G, (c * 2 ^ n) • g = 0) (xSq : G → Prop)
+    (hdbl : ∀ r : G, xSq ((2 : ℤ) • r)) (hstruct : ∀ g : G, ((c * 2 ^ n) / 2) • g = 0 → ∃ r, g = (2 : ℤ) • r)
+    (P0 : G) (hP0 : ¬ xSq P0) :
+    ((2 : ℤ) ^ f) • ((c * 2 ^ (n - f)) • P0) = 0 ∧ ((2 : ℤ) ^ (f - 1)) • ((c * 2 ^ (n - f)) • P0) ≠ 0 := by
+  have hn : 1 ≤ n := le_trans hf1 hfn
+  have hN2 : (c * 2 ^ n : ℤ) / 2 = c * 2 ^ (n - 1) := by
+    obtain ⟨m, rfl⟩ : ∃ m, n = m + 1 := ⟨n - 1, by omega⟩
+    rw [pow_succ, ← mul_assoc, Int.mul_ediv_cancel _ (by decide : (2 : ℤ) ≠ 0)]
+    simp
+  constructor
+  · rw [← mul_smul]
+    have : (2 : ℤ) ^ f * (c * 2 ^ (n - f)) = c * 2 ^ n := by
+      have hh : n = f + (n - f) := by omega
+      conv => rhs; rw [hh, pow_add]
+      ring
+    rw [this]; exact hkill _
+  · rw [← mul_smul]
+    have : (2 : ℤ) ^ (f - 1) * (c * 2 ^ (n - f)) = (c * 2 ^ n) / 2 := by
+      rw [hN2]
+      have hh : n - 1 = (f - 1) + (n - f) := by omega
+      conv => rhs; rw [hh, pow_add]
+      ring
+    rw [this]
+    intro h0
+    obtain ⟨r, rfl⟩ := hstruct P0 h0
+    exact hP0 (hdbl r)
 
 /-- non-vacuity: in G = ℤ/8 × ℤ/8 (N = 8, c = 1, n = 3, f = 2) with T0 = (0,4), P₀ = (1,0), Q₀ = (0,1) the descent
     hypotheses hold for the predicates "= P₀" / "= Q₀" -/
